@@ -112,15 +112,26 @@ class Run:
             # proofs of this property + the model driver
             self.mods = sorted(set(t["module"] for t in self.cfg.get("theorems", [])))
             targets = ["lz4v-driver"] + self.mods
-            rc, o, e = sh(["lake", "build"] + targets, cwd=LEAN)
+            # the model driver first (so that the correspondence still runs when only a proof breaks) …
+            rc, o, e = sh(["lake", "build", "lz4v-driver"], cwd=LEAN)
             self.lake_ok = rc == 0
             if rc != 0:
                 errs = [l for l in (o + e).splitlines() if "error" in l][:8]
-                out.append(Violation("P", "lake build failed (a proof obligation or a model no longer checks): " + " | ".join(errs),
-                                     extra=dict(theorem="(build) " + "; ".join(errs)[:500])))
-                self.say("P: lake build FAILED:", *errs)
-            else:
-                self.say("P: lake build ok:", " ".join(targets))
+                out.append(Violation("P", "the models no longer build against the regenerated constants/leaf functions: " + " | ".join(errs),
+                                     extra=dict(theorem="(model build) " + "; ".join(errs)[:500])))
+                self.say("P: model driver build FAILED:", *errs)
+            # … then the property's theorems
+            self.proofs_ok = True
+            if self.mods:
+                rc, o, e = sh(["lake", "build"] + self.mods, cwd=LEAN)
+                self.proofs_ok = rc == 0
+                if rc != 0:
+                    errs = [l for l in (o + e).splitlines() if "error" in l][:8]
+                    out.append(Violation("P", "lake build failed (a proof obligation no longer checks): " + " | ".join(errs),
+                                         extra=dict(theorem="(build) " + "; ".join(errs)[:500])))
+                    self.say("P: lake build FAILED:", *errs)
+                else:
+                    self.say("P: lake build ok:", " ".join(targets))
             # harness from the working tree
             for name, tags in (("vh", "verif"), ("vh-noasm", "verif,noasm")):
                 rc, o, e = sh(["go", "build", "-tags", tags, "-o", os.path.join(BIN, name), "."], cwd=HARN, env=GOENV)
@@ -144,7 +155,7 @@ class Run:
         if bad:
             out.append(Violation("P", "forbidden construct in Lean sources: " + "; ".join(bad[:5]), extra=dict(theorem="(audit)")))
             self.say("P: forbidden constructs:", *bad[:5])
-        if not thms or not self.lake_ok:
+        if not thms or not getattr(self, "proofs_ok", True):
             return out
         src = "".join(f"import {m}\n" for m in self.mods) + "".join(f"#print axioms {t['name']}\n" for t in thms)
         f = os.path.join(self.work, "Audit.lean")
